@@ -314,3 +314,32 @@ func TrimMod(s string) string {
 	s = strings.ReplaceAll(s, "github.com/cockroachdb/errors.", "errors.")
 	return s
 }
+
+// Unspill sees through a local variable that go/ssa spilled to memory
+// because a closure captures it: a load of an Alloc with exactly one store
+// yields the stored value. Other values are returned unchanged.
+func Unspill(v ssa.Value) ssa.Value {
+	for i := 0; i < 4; i++ {
+		ld, ok := v.(*ssa.UnOp)
+		if !ok || ld.Op != token.MUL {
+			return v
+		}
+		al, ok := ld.X.(*ssa.Alloc)
+		if !ok {
+			return v
+		}
+		var stored ssa.Value
+		n := 0
+		for _, r := range *al.Referrers() {
+			if st, ok := r.(*ssa.Store); ok && st.Addr == al {
+				stored = st.Val
+				n++
+			}
+		}
+		if n != 1 {
+			return v
+		}
+		v = stored
+	}
+	return v
+}
